@@ -483,7 +483,8 @@ Definition schemas_size (ss : schemas) : nat :=
    already visited are seen in their NEW state, the current and later ones in their original
    state (top-level object types are never written in place).  A disjunction of constants seen
    through its new enum form yields the same members, so the model resolves in the original
-   schemas.  Mutually recursive disjunctions recurse forever. *)
+   schemas.  Mutually recursive disjunctions recurse forever: a recursion deeper than twice the
+   number of type nodes has been through the same node twice with the same candidate kind. *)
 Definition is_numeric_kind (k : skind) : bool :=
   existsb (seqb (skind_name k))
           ["float32"; "float64"; "uint8"; "uint16"; "uint32"; "uint64"; "int8"; "int16"; "int32"; "int64"].
@@ -537,7 +538,7 @@ Definition docte_disj (ss : schemas) (t : ty) : res ty :=
       match d_branches d with
       | [] | [_] => Ok t
       | _ =>
-          do x <- docte_resolves (schemas_size ss + ty_size t + 2) ss t (None, []) ;
+          do x <- docte_resolves (2 * (schemas_size ss + ty_size t) + 4) ss t (None, []) ;
           if fst x then Ok (TEnum (mk_attrs (nullable a) (dflt a) []) (snd (snd x))) else Ok t
       end
   | _ => Ok t
@@ -655,10 +656,8 @@ Fixpoint str_alist_set {V} (l : list (string * V)) (k : string) (v : V) : list (
   | [] => [(k, v)]
   | (k', v') :: r => if seqb k' k then (k', v) :: r else (k', v') :: str_alist_set r k v
   end.
-(* MAP-ORDER: Go ranges over the map of candidate fields of the FIRST branch's struct and keeps
-   the first one present in every (struct) branch.  When two or more field names qualify the
-   Go result is random; the model takes the first in the field order of that struct.
-   `dim_infer_candidates` returns all qualifying names (ambiguous iff more than one distinct). *)
+(* The candidate fields of the FIRST branch's struct that are candidates in every (struct)
+   branch.  Go tries them in sorted order (sort.Strings: byte-wise) and keeps the first. *)
 Definition dim_infer_candidates (s : schema) (d : disj) : res (list string) :=
   do cands <- (fix go (l : list ty) (acc : list (string * list string)) : res (list (string * list string)) :=
                  match l with
@@ -679,9 +678,11 @@ Definition dim_infer_candidates (s : schema) (d : disj) : res (list string) :=
       end
   | _ => Panic "index out of range [0] with length 0"
   end.
+Definition str_min (a b : string) : string :=
+  match String.compare a b with Gt => b | _ => a end.
 Definition dim_infer (s : schema) (d : disj) : res string :=
   do l <- dim_infer_candidates s d ;
-  Ok (match l with c :: _ => c | [] => "" end).
+  Ok (match l with c :: r => fold_left str_min r c | [] => "" end).
 (* Ok None: buildDiscriminatorMapping returned an error *)
 Definition dim_build (s : schema) (disc : string) (bs : list ty) : res (option (list (string * string))) :=
   if seqb disc "" then Ok None else
@@ -1089,25 +1090,6 @@ Definition remove_intersections (ss : schemas) : res schemas :=
              | s :: rest => do x <- ri_schema st s ; do rest' <- go rest (snd x) ; Ok (fst x :: rest')
              end) ss ([], []) ;
   Ok r.
-
-(* the inputs on which DisjunctionInferMapping depends on Go's map order: some visited
-   disjunction of references without discriminator has two or more distinct candidate fields *)
-Definition dim_ambiguous_disj (s : schema) (st : bool) (t : ty) : res (ty * bool) :=
-  match t with
-  | TDisj _ d =>
-      if has_only_refs (d_branches d) && seqb (d_disc d) "" then
-        do c <- dim_infer_candidates s d ;
-        Ok (t, st || Nat.leb 2 (List.length (nodup string_dec c)))
-      else Ok (t, st)
-  | _ => Ok (t, st)
-  end.
-Definition dim_ambiguous (ss : schemas) : bool :=
-  existsb (fun s =>
-             existsb (fun t => match visit_disj (dim_ambiguous_disj s) false t with
-                               | Ok r => snd r
-                               | _ => false
-                               end)
-                     (s_entrytype s :: map (fun ko => o_type (snd ko)) (s_objects s))) ss.
 
 (* ---------- sharing left behind by a pass ----------
    The models are functional.  Three Go passes leave payload pointers SHARED between two places
